@@ -199,6 +199,8 @@ def static_applicable(name, flags):
 
 
 def dyn_applicable(name, flags):
+    if name.startswith("SDCT") and flags["kp"]:
+        return False  # Data_K_k.Xbar('Ham', 0) raises on purpose: SDCT is not defined for k.p systems
     if name.startswith("SHC"):
         if not flags["SS"]:
             return False
